@@ -58,7 +58,9 @@ def demo_cmd(sid, wt):
     how = meta.get('demo_how_to_run', '')
     m = re.search(r'cp out/m\d+/demo_test\.go (\w+)/zz_demo_test\.go', how)
     pkg = m.group(1) if m else 'emitter'
-    return ('cp %s/demo_test.go %s/zz_demo_test.go && go test -vet=off -count=1 -run TestDemo ./%s/' % (d, pkg, pkg), 'rm -f %s/zz_demo_test.go' % pkg)
+    tg = re.search(r'-tags[ =](\w+)', how)
+    tags = ('-tags %s ' % tg.group(1)) if tg else ''
+    return ('cp %s/demo_test.go %s/zz_demo_test.go && go test %s-vet=off -count=1 -run TestDemo ./%s/' % (d, pkg, tags, pkg), 'rm -f %s/zz_demo_test.go' % pkg)
 
 
 def verify(args):
